@@ -151,7 +151,18 @@ def wrapVal : Slots → Option SVal
 def flagOf : String → Option Bool
   | "f0" => some false | "f1" => some true | _ => none
 
-def answer (items : List Sexp) : Option String := do
+/-- verbs over emitted types (`pbrun`): `pbeenc <type> …` is `pbenc hm …` for the model. -/
+def normalize (items : List Sexp) : List Sexp :=
+  match items with
+  | .atom "pbeenc" :: _ :: rest => .atom "pbenc" :: .atom "hm" :: rest
+  | .atom "pbecat" :: _ :: rest => .atom "pbcat" :: .atom "hm" :: rest
+  | .atom "pbedec" :: _ :: rest => .atom "pbdec" :: .atom "hm" :: rest
+  | .atom "pbemrg" :: _ :: rest => .atom "pbmrg" :: .atom "hm" :: rest
+  | .atom "pbedld" :: _ :: rest => .atom "pbdld" :: .atom "hm" :: rest
+  | _ => items
+
+def answer (items0 : List Sexp) : Option String := do
+  let items := normalize items0
   let verb ← items.head? >>= Sexp.asAtom
   match verb with
   | "pbvarenc" =>
@@ -236,6 +247,13 @@ def answer (items : List Sexp) : Option String := do
       | .ok r => pure s!"ok {slotsSexp r}"
       | o => pure o.cls
   | "pbdec" =>
+    let s ← items[2]? >>= schemaOf
+    let i ← items[3]? >>= Sexp.asNat
+    let bs ← items[4]? >>= Sexp.asHex
+    match decode s i bs with
+    | .ok r => pure s!"ok {slotsSexp r}"
+    | o => pure o.cls
+  | "pbunk" | "pbilv" =>
     let s ← items[2]? >>= schemaOf
     let i ← items[3]? >>= Sexp.asNat
     let bs ← items[4]? >>= Sexp.asHex
